@@ -170,10 +170,11 @@ MANIFEST_TEXT.update({
 PLANS["C08"] = P(
     "model_checking",
     ["verify.lenient.unpack", "verify.claims", "scn.expect.reject", "scn.expect.claims", "scn.model.agrees"],
-    [{"module": "MC_malformed", "quick": "MC_malformed_quick.cfg", "thorough": "MC_malformed.cfg", "timeout": {"quick": 300, "thorough": 900}}],
-    [{"driver": "replay", "scn": "MC_malformed", "args": {"n": 100000, "matrix": 0}}],
-    [{"driver": "replay", "scn": "MC_malformed", "args": {"n": 100000, "matrix": 0}}],
-    required={"verify.lenient.unpack": 3000, "verify.claims": 100, "scn.model.agrees": 6000},
+    [{"module": "MC_malformed", "quick": "MC_malformed_quick.cfg", "thorough": "MC_malformed.cfg", "timeout": {"quick": 300, "thorough": 900}},
+     {"module": "MC_nested", "quick": "MC_nested.cfg", "thorough": "MC_nested.cfg", "timeout": {"quick": 300, "thorough": 900}}],
+    [{"driver": "replay", "scn": "MC_malformed", "args": {"n": 100000, "matrix": 0}}, {"driver": "replay", "scn": "MC_nested", "args": {"n": 100000, "matrix": 0}}],
+    [{"driver": "replay", "scn": "MC_malformed", "args": {"n": 100000, "matrix": 0}}, {"driver": "replay", "scn": "MC_nested", "args": {"n": 100000, "matrix": 0}}],
+    required={"verify.lenient.unpack": 5000, "verify.claims": 400, "scn.model.agrees": 8000},
     rule="cases = validly signed payload/disclosure structures from MC_malformed: a template with four digest slots (root _sd, array placeholder, nested _sd inside a "
          "disclosed value) and every set of <= 2 deviations out of 76 (15 ill-formed disclosure shapes per slot, duplicated digests within/across/nested, non-string entries, "
          "placeholders with extra members, _sd not an array, _sd_alg variants, withheld disclosures), signed with the test issuer key and verified in both serializations; "
@@ -183,7 +184,9 @@ PLANS["C08"] = P(
 MANIFEST_TEXT["C08"] = {
     "text": "Unpack is the most lenient reading of draft-07 8.1 step 3 (ERR exactly for the MUST-reject cases). TLC checks Inv_C08 on MC_malformed: for each of the 2441 deviation sets the "
             "specified verifier rejects iff an independently written 'theory of the template' (MustReject) says the draft requires it. Every structure is signed with the test issuer key, "
-            "replayed against the real verifier and validated by TLC: Unpack = ERR obliges rejection, acceptance obliges claims = Unpack(..).",
+            "replayed against the real verifier and validated by TLC: Unpack = ERR obliges rejection, acceptance obliges claims = Unpack(..). MC_nested: in two nested claim sets issued by the "
+            "specified issuer (all nodes / inner nodes hidden) the digest of any disclosure is inserted a second time into any other container at any depth (payload or disclosed values), every "
+            "'all / all but one' subset is presented (1 448 structures); Inv_Nested compares SpecVerify with a path-based statement of when the draft requires rejection.",
     "note": _NOTE, "technique": "TLA+ bounded model checking (TLC) of the disclosure-processing algorithm + scenario replay + trace validation"}
 
 PLANS["C09"] = P(
